@@ -27,13 +27,13 @@ LEVEL_TEXT = (
     "running key never raises - the assert in release_data, the `del cache[key]` and every `.remove` succeed, so no "
     "key is released twice (release_once); a released key is never requested, all its dependents have finished and "
     "it is out of the cache (released_only_when_unneeded, results_never_released); on normal return the cache holds "
-    "exactly the requested keys and every other visited key is released (no_leak). StartOK hypothesis as in C01.")
+    "exactly the requested keys and every other visited key is released (no_leak). The *_full versions hold for the state start_state_from_dask really builds (Sched.startState_ok).")
 LEVEL_NOTE = (
     "A user-supplied shared `cache=` mapping and `delete=False` are outside the model (cache starts empty, "
     "delete=True as get_async calls it). OS thread timing not modelled (adversarial completion order is). Trusted: "
     "Lean kernel + standard axioms; the harness.")
 TECHNIQUE = "Lean 4 invariant proof over an adversarial state machine + differential state-trace and function-level correspondence"
-ASSUMPTIONS = ["StartOK (see C01)", "cache starts empty; delete=True"]
+ASSUMPTIONS = ["cache starts empty; delete=True"]
 
 
 def oracle_release(ctx, out, inp):
